@@ -169,6 +169,29 @@ fn compare(kind: &'static str, ctxkey: &str, base_text: &str, base: &Base, var_t
     }
 }
 
+/// the program pool of C20 (conditionals, calls, reapply loops, side effects, look-ups) and the short programs of the
+/// repetition corpus (operator chains, conditional chains, nesting)
+pub fn corpus_programs() -> &'static [String] {
+    static CORPUS: std::sync::OnceLock<Vec<String>> = std::sync::OnceLock::new();
+    CORPUS.get_or_init(|| {
+        let mut v: Vec<String> = crate::checks::c20::POOL.iter().map(|s| s.to_string()).collect();
+        v.extend(crate::model::pipeline::repetition_programs().into_iter().filter(|p| p.split_whitespace().count() <= 24));
+        v.extend(
+            [
+                "{ $ < 3 ?> ^~ $ + 1 |> $ } <~ 0",
+                "{ $ < 2 ?> ( $ < 3 ?> ^~ $ + 1 |> $ * 10 ) |> $ } <~ 0",
+                "{ $ < 3 && ( $ < 3 ?> ^~ $ + 1 ) } <~ 0",
+                "{ $ > 2 || ^~ $ + 1 } <~ 0",
+                "{ { $ + 1 } <~ $ ; $ < 3 ?> ^~ $ |> $ } <~ 0",
+                "{ $ < 3 ?> ^~ $ + 1 |> $ } <~ 0 ; { $ < 2 ?> ^~ $ + 1 |> $ } <~ 0",
+            ]
+            .iter()
+            .map(|s| s.to_string()),
+        );
+        v
+    })
+}
+
 impl C18Check {
     /// apply every single rewrite at every position (or a tape-chosen subset) to one program
     fn judge(&self, ast: &Sx, input_ids: &[usize], pick: Option<&mut Tape>, ctx: &mut CaseCtx) {
@@ -454,6 +477,7 @@ impl Check for C18Check {
         vec![
             Phase::exhaustive("all-rewrites-of-small-programs", astgen::count_up_to(tier.pick(3, 4))).with_chunk(64),
             Phase::random("random-programs-random-rewrites", tier.pick(12_000, 300_000), 200).with_min_tape(40).with_chunk(128),
+            Phase::exhaustive("all-rewrites-of-corpus-programs", corpus_programs().len() as u64).with_chunk(2).with_deadline_ms(20_000),
         ]
     }
     fn run(&self, tier: Tier, phase: usize, input: &Input, ctx: &mut CaseCtx) {
@@ -461,6 +485,19 @@ impl Check for C18Check {
             (0, Input::Index(i)) => {
                 if let Some(ast) = astgen::unrank(*i, tier.pick(3, 4)) {
                     self.judge(&ast, &[0, 1], None, ctx);
+                }
+            }
+            (2, Input::Index(i)) => {
+                // hand-shaped programs the small-AST enumeration cannot reach: loops, calls, chains, nesting (read by the
+                // reference parser; every rewrite at every position)
+                let text = &corpus_programs()[*i as usize];
+                let ast = crate::model::refparse::tokens_from_text(text).ok().and_then(|t| crate::model::refparse::Pratt::parse(&t).ok()).map(|t| t.strip_groups());
+                match ast {
+                    Some(ast) => {
+                        ctx.class("corpus-program");
+                        self.judge(&ast, &[0, 2], None, ctx);
+                    }
+                    None => ctx.class("corpus-program-not-read-by-the-reference-parser"),
                 }
             }
             (1, Input::Tape(t)) => {
